@@ -122,6 +122,54 @@ func BcastStress(n int, budget time.Duration) StressResult {
 			res.Violates = fmt.Sprintf("mass round %d: receivers still blocked 3 s after Close", i)
 		}
 	}
+	// Free racing with Free followed by Receive on the same key: whatever the order, a subscription that
+	// exists afterwards is known to the table, so Close releases its receive function
+	phaseEnd = time.Now().Add(budget)
+	for i := 0; i < n && res.Violates == "" && within(i); i++ {
+		res.Kinds["free-race-rounds"]++
+		b := utils.NewBroadcaster[int]()
+		if _, err := b.Receive("k", context.Background()); err != nil {
+			res.Violates = fmt.Sprintf("free-race round %d: Receive failed: %v", i, err)
+			break
+		}
+		var rr func() (*int, error)
+		var regErr error
+		var wg sync.WaitGroup
+		start := make(chan struct{})
+		wg.Add(2)
+		go func() {
+			defer wg.Done()
+			<-start
+			for j := 0; j < i%5; j++ {
+				runtime.Gosched()
+			}
+			b.Free("k", nil)
+		}()
+		go func() {
+			defer wg.Done()
+			<-start
+			for j := 0; j < (i/5)%5; j++ {
+				runtime.Gosched()
+			}
+			b.Free("k", nil)
+			rr, regErr = b.Receive("k", context.Background())
+		}()
+		close(start)
+		wg.Wait()
+		if regErr != nil {
+			res.Violates = fmt.Sprintf("free-race round %d: Receive failed with %v", i, regErr)
+			break
+		}
+		b.Close(nil)
+		done := make(chan error, 1)
+		go func() { _, err := rr(); done <- err }()
+		select {
+		case <-done:
+			res.Kinds["free-race-released"]++
+		case <-time.After(300 * time.Millisecond):
+			res.Violates = fmt.Sprintf("free-race round %d: Free(k) raced with Free(k); Receive(k): the receive function of the new subscription still blocks after Close (the table lost the subscription without cancelling it)", i)
+		}
+	}
 	// a stale receive function (its key was freed) runs while a value for ANOTHER key is being handed
 	// over: it must return its own key's cancellation, never the other key's value
 	phaseEnd = time.Now().Add(budget)
